@@ -12,14 +12,24 @@ import (
 
 // scene is one image (pair) with what the model knows about its source and the singleton results.
 type scene struct {
-	Kind    string
-	Image   bufimage.Image
-	Against bufimage.Image
-	Src     *source
-	Sources map[string]string
+	// Derivation != nil: the image(s) were obtained this way (part K); nil = the workspace built with --path a --path b
+	Derivation *derivation
+	Kind       string
+	Image      bufimage.Image
+	Against    bufimage.Image
+	Src        *source
+	Sources    map[string]string
 	// Single[version][rule] = what the rule reports on its own, without any suppression
 	// (comment ignores off, exclude-imports off).
 	Single map[string]map[string][]bufx.Annotation
+}
+
+// derivedSuffix names the kind of derivation in signatures of part K ("" for the plain scenes).
+func (sc *scene) derivedSuffix() string {
+	if sc.Derivation == nil {
+		return ""
+	}
+	return "/" + sc.Derivation.shape()
 }
 
 // singletons measures result({r}) for every non-deprecated rule of every listed version.
@@ -52,8 +62,8 @@ func (e *env) singletons(sc *scene, versions []string, only stringSet) bool {
 					return false
 				}
 				if sc.Kind == "lint" && sc.Src.Imports[a.Path] {
-					e.r.Violate("lint/import-file-reported/singleton", "an import-only file was reported by lint",
-						violationCase{Oracle: "judge", Config: c, YAML: c.yaml(), Sources: sc.Sources, Observed: keysOf(obs.Anns)})
+					e.r.Violate("lint/import-file-reported/singleton"+sc.derivedSuffix(), "an import-only file was reported by lint",
+						violationCase{Oracle: "judge", Config: c, YAML: c.yaml(), Sources: sc.Sources, Observed: keysOf(obs.Anns), Derivation: sc.Derivation, Detail: annKey(a)})
 					return false
 				}
 			}
@@ -78,7 +88,7 @@ func (e *env) judge(sc *scene, c cfg, tag string) outcome {
 	r := e.r
 	r.Eval(1)
 	e.cnt.add(sc.Kind+".cases", 1)
-	t := e.tables(c.Version, sc.Kind)
+	t := e.tablesFor(c)
 	mc := c.model() // what the model evaluates (differs from c only for an empty module-level section)
 	sel, unknown := t.selection(mc.Use, mc.Except)
 	ioMap, unknown2 := t.ignoreOnly(mc.IgnoreOnly)
@@ -86,7 +96,7 @@ func (e *env) judge(sc *scene, c cfg, tag string) outcome {
 	obs := e.observe(c, sc.Image, sc.Against)
 	out := outcome{C: c, Obs: obs, Selected: sel}
 	vc := func(exp, got []string, detail string) violationCase {
-		return violationCase{Oracle: "judge", Config: c, YAML: c.yaml(), Comments: sc.Src.Comments, Sources: sc.Sources, Expected: exp, Observed: got, Detail: detail, MapSeed: e.mapSeedPtr()}
+		return violationCase{Oracle: "judge", Config: c, YAML: c.yaml(), Comments: sc.Src.Comments, Sources: sc.Sources, Expected: exp, Observed: got, Detail: detail, MapSeed: e.mapSeedPtr(), Derivation: sc.Derivation}
 	}
 	if obs.ParseErr != "" {
 		r.Violate(sc.Kind+"/config-rejected-by-parser", "buf.yaml of known IDs and in-module paths was rejected: "+obs.ParseErr, vc(nil, nil, obs.ParseErr))
@@ -146,7 +156,7 @@ func (e *env) judge(sc *scene, c cfg, tag string) outcome {
 	if sc.Kind == "lint" || c.ExcludeImports {
 		for _, a := range obs.Anns {
 			if sc.Src.Imports[a.Path] {
-				r.Violate(sc.Kind+"/import-file-reported", "an annotation on an import-only file was reported", vc(nil, keysOf(obs.Anns), annKey(a)))
+				r.Violate(sc.Kind+"/import-file-reported"+sc.derivedSuffix(), "an annotation on an import-only file was reported", vc(nil, keysOf(obs.Anns), annKey(a)))
 				return out
 			}
 		}
@@ -199,6 +209,23 @@ func (e *env) judge(sc *scene, c cfg, tag string) outcome {
 						cause = "except-not-applied/" + t.classify(ex)
 					}
 				}
+				if len(c.Plugins) > 0 {
+					// several check delegates: does the delegate that owns the reporting rule own any selected rule?
+					owner, ownsSelected := t.owner(a.Type), false
+					for id := range sel {
+						if t.owner(id) == owner {
+							ownsSelected = true
+						}
+					}
+					if !ownsSelected {
+						// one defect, one signature: whatever emptied the delegate's share of the selection (use or except)
+						role := "plugin"
+						if owner == "builtin" {
+							role = "builtin"
+						}
+						cause = "unselected-rule-reported/rule-of-delegate-without-selected-rule/" + role
+					}
+				}
 			}
 			sig = sc.Kind + "/union-minus/extra/" + cause
 			what = "reported but not in the model result: " + extra[0]
@@ -216,6 +243,7 @@ func (e *env) judge(sc *scene, c cfg, tag string) outcome {
 	}
 	out.Judged = true
 	// coverage of the clauses
+	e.pluginCoverage(c, t, sel, len(obs.Anns))
 	counts := map[string]int{}
 	for _, s := range reasons {
 		counts[s.Why]++
@@ -588,6 +616,11 @@ func (m menu) combos() []suppressionCombo {
 // exploreGrid runs use x except x (ignore, ignore_only) [x exclude-imports] for one scene and version,
 // judging every configuration and checking monotonicity between neighbours.
 func (e *env) exploreGrid(sc *scene, versions []string, menuOf func(string) menu, tag string) {
+	e.exploreGridOn(sc, versions, menuOf, tag, cfg{})
+}
+
+// exploreGridOn: as exploreGrid; every configuration additionally carries the plugins / disable_builtin of base.
+func (e *env) exploreGridOn(sc *scene, versions []string, menuOf func(string) menu, tag string, base cfg) {
 	r := e.r
 	type job struct {
 		version string
@@ -607,7 +640,7 @@ func (e *env) exploreGrid(sc *scene, versions []string, menuOf func(string) menu
 	r.ParallelFor(len(jobs), 0, func(i int) {
 		j := jobs[i]
 		m := menuOf(j.version)
-		t := e.tables(j.version, sc.Kind)
+		t := e.tablesFor(cfg{Version: j.version, Type: sc.Kind, Plugins: base.Plugins, DisableBuiltin: base.DisableBuiltin})
 		excepts := subsetsOf(m.ExceptIDs, m.ExceptMax)
 		combos := m.combos()
 		xis := []bool{false}
@@ -621,7 +654,8 @@ func (e *env) exploreGrid(sc *scene, versions []string, menuOf func(string) menu
 		for _, ex := range excepts {
 			for _, co := range combos {
 				for _, xi := range xis {
-					c := cfg{Version: j.version, Type: sc.Kind, Use: j.use, Except: ex, Ignore: co.Ignore, IgnoreOnly: co.IgnoreOnly, ExcludeImports: xi}
+					c := cfg{Version: j.version, Type: sc.Kind, Use: j.use, Except: ex, Ignore: co.Ignore, IgnoreOnly: co.IgnoreOnly, ExcludeImports: xi,
+						Plugins: base.Plugins, DisableBuiltin: base.DisableBuiltin, AllowComments: base.AllowComments}
 					res[key(ex, co, xi)] = e.judge(sc, c, tag)
 				}
 			}
